@@ -207,10 +207,12 @@ impl Field {
                 // unsigned value, sizes and counts are never negative.
                 let t = ExprTree::new();
                 let from = Integral::fitting(*width).min(*ty);
-                t.gen_expr(t.sub(
-                    t.cast(t.symbol(quote!($expr), from), *ty),
-                    t.num(width_fields.get(arr_name).unwrap().modifier().unwrap_or(0)),
-                ))
+                let modifier = width_fields.get(arr_name).unwrap().modifier().unwrap_or(0);
+                // `expr` is opaque to the tree (it may be `(chunk >>> n) & mask`): unless a widening
+                // call wraps it, parenthesize it before subtracting, '-' binds tighter than '&'.
+                let value =
+                    if modifier != 0 && from == *ty { quote!(($expr)) } else { quote!($expr) };
+                t.gen_expr(t.sub(t.cast(t.symbol(value, from), *ty), t.num(modifier)))
             }
             Field::Integral { width: 1, .. } => quote!($expr != 0),
             Field::Integral { .. } => quote!($expr),
